@@ -208,6 +208,9 @@ def plan_subop(w, so, n):
     idx, mean = w.sim_disk[base]
     if kind == "save":
         m = so["m"]
+        if so.get("rel") is not None and ent is not None and not ent["unknown"]:
+            # re-save relative to the list that is on disk: a bit shorter / longer than before
+            m = min(13, max(1, len(ent["uids"]) + so["rel"]))
         cuts = sorted(c % (m + 1) for c in so["cuts"][:n - 1])
         cuts += [m] * (n - 1 - len(cuts))
         cuts = sorted(cuts)
@@ -219,10 +222,27 @@ def plan_subop(w, so, n):
                "off": 1e8 if so.get("big") else 0.0}
         if 0 in part:
             w.probes["empty_rank_in_save"] += 1
+        if m >= 10:
+            w.probes["two_digit_sample_count"] = w.probes.get("two_digit_sample_count", 0) + 1
+            if ent is not None and not ent["unknown"] and len(ent["uids"]) > m and so["overwrite"]:
+                w.probes["two_digit_shorter_over_longer"] = w.probes.get("two_digit_shorter_over_longer", 0) + 1
         if so.get("master_only") and so["overwrite"] and n > 1:
             w.probes["master_only_save_then_collective_ops"] = w.probes.get("master_only_save_then_collective_ops", 0) + 1
         exists = bool(idx & set(range(m + 1))) or (so["kind"] == "residual" and mean)
+        # files the statement guarantees to exist: those of the list saved last.  Stale higher-numbered
+        # files of an older, longer list may or may not have been cleaned up - an implementation detail
+        certain = set(range(len(ent["uids"]))) if (ent is not None and not ent["unknown"]) else set()
+        exists_certain = bool(idx & certain & set(range(m + 1))) or \
+            (so["kind"] == "residual" and mean and ent is not None and not ent["unknown"] and ent["kind"] == "residual")
         plan = dict(so, part=part, entry=new)
+        if not so["overwrite"] and exists and not exists_certain:
+            # refusal would hinge on a stale file only: either outcome is acceptable, contents unspecified afterwards
+            plan["expect"] = "any"
+            w.probes["overwrite_false_on_stale_only"] = w.probes.get("overwrite_false_on_stale_only", 0) + 1
+            w.model[base] = {"unknown": True, "kind": so["kind"], "ftype": so["ftype"], "uids": [],
+                             "negs": [], "sub": False, "mean": None}
+            w.resync.add(base)
+            return plan
         if so["overwrite"] or not exists:
             plan["expect"] = "ok"
             if ent is not None and not ent["unknown"]:
@@ -560,11 +580,14 @@ def strategies():
     opn = st.sampled_from([None, "lin", "nonlin"])
     save = st.fixed_dictionaries({
         "op": st.just("save"), "base": base, "kind": st.sampled_from(["plain", "residual"]),
-        "ftype": st.sampled_from(["field", "multi"]), "m": st.integers(1, 5),
-        "cuts": st.lists(st.integers(0, 5), min_size=0, max_size=3), "overwrite": st.booleans(),
+        "ftype": st.sampled_from(["field", "multi"]),
+        # two-digit sample counts: file names with multi-digit indices (numeric vs lexicographic order, per-digit parsing)
+        "m": st.one_of(st.integers(1, 5), st.integers(1, 5), st.integers(1, 5), st.integers(9, 13)),
+        "cuts": st.lists(st.integers(0, 13), min_size=0, max_size=3), "overwrite": st.booleans(),
         "negs": st.lists(st.integers(0, 1), min_size=0, max_size=5), "sub": st.booleans(),
         "big": st.sampled_from([False, False, True]), "master_only": st.sampled_from([False, False, True]),
-        "then_local_load": st.sampled_from([False, True])})
+        "then_local_load": st.sampled_from([False, True]),
+        "rel": st.sampled_from([None, None, None, -1, -2, -3, 1])})
     save_ow = save.map(lambda d: dict(d, overwrite=True))
     load = st.fixed_dictionaries({"op": st.just("load"), "base": base, "cls": st.sampled_from(["plain", "residual"]),
                                   "also_local": st.booleans()})
@@ -675,7 +698,7 @@ def main(argv):
     if a.replay:
         return replay(a.replay)
     rep = harness.Report(PROP, a.tier, a.seed, "exploration")
-    nproc, nex = (16, 150) if a.tier == "quick" else (96, 600)
+    nproc, nex = (32, 200) if a.tier == "quick" else (128, 800)
     jobs = [{"hseed": core.h64(a.seed, "c26", i) % (2**31), "examples": nex} for i in range(nproc)]
     results = harness.pmap(hunt, jobs, chunk=1, hang_s=1500)
     tot = {"runs": 0, "phases": 0}
